@@ -82,6 +82,8 @@ func init() {
 	add("C10", "C10.commitreceipts (see C11.commitreceipts).", as1(commitReceiptsRule, "C10.commitreceipts"))
 	add("C02", "C02.handed (core.commit hands every block it is given to the application before it returns — no node-local mark or mode withholds one: the delivered sequence has no holes; shared with C05.handed).", as1(handedRule, "C02.handed"))
 	add("C05", "C05.handed (see C02.handed: the transactions of a block the hashgraph produced are not withheld from the application).", as1(handedRule, "C05.handed"))
+	add("C10", "C10.recorded (a block signature is recorded only for a member of the validator-set of the block's round — not for any peer of the repertoire; see C09.record).", sharedAs(c09record, map[string]string{"C09.record": "C10.recorded"}))
+	add("C11", "C11.norefusal (Hashgraph.Bootstrap returns only errors its callees returned: it makes no acceptance decision of its own about the database it replays).", as1(noRefusalRule, "C11.norefusal"))
 	add("C01", "C01.mapcut (see C03.mapcut).", as(mapCutRule, "C01.mapcut", consensusFuncs))
 	add("C13", "C13.mapcut (see C03.mapcut, for the functions that build a frame).", as(mapCutRule, "C13.mapcut", frameFuncs))
 }
@@ -1799,4 +1801,98 @@ func handedRule(p *Prog, r *Report, rule string) {
 		}
 	}
 	r.Check(ok, rule, "commit:block-always-handed-to-the-application", p.pos(fn.Pos()), fnName(fn), "the commit callback runs before every return", why)
+}
+
+/* ---------- C11.norefusal (seed C11i): Bootstrap refuses a database only when a callee reported a failure ---------- */
+
+// noRefusalRule: every non-nil error Hashgraph.Bootstrap returns is (or wraps) an error one of its callees returned — a
+// database read, an insertion, the signature pool. Bootstrap itself makes no acceptance decision about the database it
+// replays: the events in it were admitted by InsertEvent when they were first inserted and are admitted by it again. A check
+// of its own (against the repertoire known so far, against a size, against a version …) turns a healthy database into one the
+// node can no longer restart from.
+func noRefusalRule(p *Prog, r *Report, rule string) {
+	r.Rule(rule, 1, "every error returned by Hashgraph.Bootstrap comes from a callee's error result (wrapped or not)")
+	fn := p.Func(HG, "Hashgraph", "Bootstrap")
+	if fn == nil {
+		r.Anchor(rule, "hashgraph.(*Hashgraph).Bootstrap")
+		return
+	}
+	var fromCallee func(v ssa.Value, depth int) bool
+	fromCallee = func(v ssa.Value, depth int) bool {
+		if depth > 6 {
+			return false
+		}
+		v = unwrap(v)
+		switch x := v.(type) {
+		case *ssa.Const:
+			return x.Value == nil
+		case *ssa.Phi:
+			for _, e := range x.Edges {
+				if !fromCallee(e, depth+1) {
+					return false
+				}
+			}
+			return true
+		case *ssa.Extract:
+			_, isCall := x.Tuple.(*ssa.Call)
+			return isCall && isErrorType(x.Type())
+		case *ssa.Call:
+			f := calleeFunc(x.Common())
+			if f != nil {
+				switch shortName(f) {
+				case "fmt.Errorf", "errors.New", "errors.Wrap", "errors.Wrapf":
+					for _, a := range x.Call.Args {
+						if dependsOn(a, func(y ssa.Value) bool {
+							if y == ssa.Value(x) {
+								return false
+							}
+							return isErrorType(y.Type()) && fromCallee(y, depth+1) && !isNilConst(y)
+						}) {
+							return true
+						}
+					}
+					return false
+				}
+			}
+			return isErrorType(x.Type())
+		case *ssa.UnOp:
+			// a result temporary / local error variable: every value stored into it
+			if al, ok := x.X.(*ssa.Alloc); ok {
+				okAll, n := true, 0
+				if refs := al.Referrers(); refs != nil {
+					for _, u := range *refs {
+						if st, isSt := u.(*ssa.Store); isSt && st.Addr == ssa.Value(al) {
+							n++
+							if !fromCallee(st.Val, depth+1) {
+								okAll = false
+							}
+						}
+					}
+				}
+				return okAll && n > 0
+			}
+		case *ssa.MakeInterface:
+			return false
+		}
+		return false
+	}
+	ok, why, n := true, "", 0
+	for _, g := range withAnon(fn) {
+		if g != fn {
+			continue // deferred closures do not return Bootstrap's error
+		}
+		for _, b := range g.Blocks {
+			ret, isRet := b.Instrs[len(b.Instrs)-1].(*ssa.Return)
+			if !isRet || (b.Index != 0 && len(b.Preds) == 0) || len(ret.Results) == 0 {
+				continue
+			}
+			n++
+			for _, rp := range retPointsOf(ret, len(ret.Results)-1) {
+				if !fromCallee(rp.val, 0) {
+					ok, why = false, "the error returned at "+p.ipos(ret)+" is made up by Bootstrap itself (it is not an error a callee returned): a check of Bootstrap's own can refuse a database that the insertion path would replay without complaint"
+				}
+			}
+		}
+	}
+	r.Check(ok && n > 0, rule, "Bootstrap:errors-come-from-callees", p.pos(fn.Pos()), fnName(fn), "no refusal of its own", why)
 }
